@@ -301,7 +301,7 @@ def split_response(buf):
 
 
 # ---- escape classification -----------------------------------------------------------
-_PRIMS = [("int(", "int"), (".split(", "split"), (".decode(", "decode"), (".encode(", "encode"),
+_PRIMS = [("float(", "float"), ("int(", "int"), (".split(", "split"), (".decode(", "decode"), (".encode(", "encode"),
           (".format(", "format"), (".items(", "iter"), (".values(", "iter"), ("next(", "next"),
           (".partition(", "partition"), ("del ", "del"), ("[", "index")]
 
